@@ -117,6 +117,7 @@ def do_process(sp, w, m, ids, when, fault_allowed):
     FAULT['armed'] = False
     CASCADE['phase'] = False
     frame = [r for r in LOG[start:] if r[0] != 'cascade']
+    keep = None
     for r in LOG[start:]:
         if r[0] == 'cascade':
             # a callback deleted another entity during the deletion phase
@@ -135,7 +136,7 @@ def do_process(sp, w, m, ids, when, fault_allowed):
                 m.dead.add(t)               # deferred cascade not served in this frame: pending for the next
                 if t in doomed:
                     doomed.remove(t)
-                m.cascade_wait = t
+                keep = t
     kinds = [r[0] for r in frame]
     if 'process' in kinds:
         first_proc = kinds.index('process')
@@ -158,8 +159,6 @@ def do_process(sp, w, m, ids, when, fault_allowed):
                 n = sum(1 for r in frame if r[0] == 'on_remove' and r[2] is c and r[1] == e)
                 sp.check(n == 1, 'notified',
                          '%s: handler component of deleted entity %r got %d on_remove calls' % (when, e, n))
-    keep = getattr(m, 'cascade_wait', None)
-    m.cascade_wait = None
     for e in list(m.dead):
         if e != keep:
             m.ents.pop(e, None)
@@ -327,7 +326,8 @@ TIERS = {
               ('defer', dict(L=1, K=2, build=True, cascade=True, fault=False), dict(required=['cascade-immediate', 'cascade-deferred', 'frame-deletes'])),
               ('defer', dict(L=1, K=1, build=True, ids=(0, '')), dict(required=['delete-deferred', 'frame-deletes', 'id-reused'])),
               ('defer', dict(L=1, K=1, build=True), dict(required=['delete-deferred', 'frame-deletes', 'frame-failed', 'recovered']))],
-    'thorough': [('defer', dict(L=4, K=2)), ('defer', dict(L=2, K=2, build=True, cascade=True)), ('defer', dict(L=3, K=1, ids=(0, ''))), ('defer', dict(L=3, K=2, build=True, procs=2)), ('defer', dict(L=5, K=1, ids=(1,), procs=2)),
+    'thorough': [('defer', dict(L=4, K=2)), ('defer', dict(L=2, K=2, build=True, cascade=True, fault=False),
+                  dict(required=['cascade-immediate', 'cascade-deferred', 'frame-deletes', 'delete-deferred'])), ('defer', dict(L=3, K=1, ids=(0, ''))), ('defer', dict(L=2, K=2, build=True, procs=2)), ('defer', dict(L=5, K=1, ids=(1,), procs=2)),
                  ('defer', dict(L=3, K=3, procs=2))],
 }
 BUDGET_S = {'quick': 150, 'thorough': 1500}
